@@ -193,6 +193,13 @@ func WellFormed(kind Kind, b []byte) error {
 	case KProtected:
 		return wfProtected(n, nil)
 	case KUnprotected:
+		if n.Major != 5 {
+			return ill("shape", "unprotected header must be a map")
+		}
+		// definite lengths and unique keys are judged on the item as received
+		if e := wfEnvelopeItem(n, false); e != nil {
+			return e
+		}
 		// the bare bucket decoder is not an envelope decoder: the CBOR library looks through tags in
 		// its values, and the statement's "no tags" clause is about the envelope, so the parameter
 		// rules are applied to the untagged content
@@ -202,12 +209,6 @@ func WellFormed(kind Kind, b []byte) error {
 					n = nn
 				}
 			}
-		}
-		if n.Major != 5 {
-			return ill("shape", "unprotected header must be a map")
-		}
-		if e := wfEnvelopeItem(n, false); e != nil {
-			return e
 		}
 		return wfLayer(nil, n)
 	}
